@@ -19,7 +19,11 @@ unsafe impl<S: AsFd> OpCode for OpenFile<S> {
     }
 
     unsafe fn set_result(&mut self, _: &mut Self::Control, res: &io::Result<usize>, _: &Extra) {
-        if let Ok(fd) = res {
+        // The blocking fallback (`call`) has already stored the descriptor; only an
+        // io_uring completion carries it as the result value.
+        if self.opened_fd.is_none()
+            && let Ok(fd) = res
+        {
             // SAFETY: fd is a valid fd returned from kernel
             let fd = unsafe { OwnedFd::from_raw_fd(*fd as _) };
             self.opened_fd = Some(fd);
